@@ -1117,14 +1117,14 @@ def gen_cases(tier, rng):
     # ---- labels: exhaustive element x charge sweep, plus random
     for el in _periodic_symbols() + ["*"]:
         cases.append(dict(kind="label", element=el, charges=list(range(-4, 5)), name="label/" + el))
-    for k in range(20 if quick else 200):
+    for k in range(20 if quick else 100):
         el = "".join(rng.choice("ABCDEFGHIJKLMNOPQRSTUVWXYZabcdefghijklmnopqrstuvwxyz*") for _ in range(rng.randint(1, 4)))
         cases.append(dict(kind="label", element=el, charges=[rng.choice([-1, 1]) * rng.choice([5, 9, 10, 11, 19, 20, 99, 100, 101, 1000, 12345678901234567890])
                                                              for _ in range(4)]))
     bad = ["", "+", "-", "2+", "C+-", "C-+", "C++", "C2", "C02+", "C007-", "C+2", "C 2+", "C2+ ", "c1", "N+1", "C\n", "C+\n", "C\n\n", "Cl-",
            "Fe3+", "*", "*-", "X", "C.", "[C]", "C2+2", "C12", "Cu+Cu", "O2-", "H+", "a*b9-"]
     cases.append(dict(kind="extract", labels=bad, name="extract/fixed"))
-    for k in range(6 if quick else 60):
+    for k in range(6 if quick else 30):
         cases.append(dict(kind="extract", labels=["".join(rng.choice("CNOl*+-0129 ") for _ in range(rng.randint(0, 5))) for _ in range(12)]))
     # ---- hydrogen conversions: exhaustive small graphs
     for n in ((1, 2, 3) if quick else (1, 2, 3, 4)):
@@ -1143,7 +1143,7 @@ def gen_cases(tier, rng):
                 nk += 1
                 if quick and nk >= 120:
                     break
-    for k in range(250 if quick else 3000):
+    for k in range(250 if quick else 1500):
         n = rng.randint(1, 9)
         z = rng.random()
         if z < 0.6:
@@ -1169,9 +1169,9 @@ def gen_cases(tier, rng):
     for s in vend_q:
         cases.append(dict(kind="mol", smiles=s, src="vendored"))
     # ---- GML parser on arbitrary records, writer on arbitrary triples
-    for k in range(150 if quick else 2000):
+    for k in range(150 if quick else 1000):
         cases.append(dict(kind="parse", rec=_rand_record(rng)))
-    for k in range(120 if quick else 1500):
+    for k in range(120 if quick else 800):
         n = rng.randint(1, 6)
         its = _rand_its(rng, n, ["C", "N", "O", "H", "Cl"])
         ids = [a for a, _ in its["nodes"]]
@@ -1201,7 +1201,7 @@ def gen_cases(tier, rng):
     for j, g in enumerate(_two_atom_its()):
         cases.append(dict(kind="its", its=g, cfgs=ALL4, name="its-exh2/%d" % j))
     syms = _periodic_symbols()
-    for k in range(150 if quick else 2500):
+    for k in range(150 if quick else 1200):
         n = rng.randint(2, 7)
         els = ["C", "N", "O", "H", "H", "Cl"] if rng.random() < 0.6 else [rng.choice(syms) for _ in range(4)] + ["*"]
         g = _rand_its(rng, n, els, consistent=rng.random() < 0.85)
